@@ -91,7 +91,8 @@ std::string describe(const Case& c)
             o << "group(" << GROUPS[2 + op.arg % 2] << ") ";
             break;
         case MOVE:
-            o << (op.arg % 2 ? "MOVE-PARSER(keep old) " : "MOVE-PARSER(destroy old) ");
+            o << ((op.arg / 2) % 2 ? "MOVE-ASSIGN-PARSER" : "MOVE-PARSER")
+              << (op.arg % 2 ? "(keep old) " : "(destroy old) ");
             break;
         }
     }
@@ -117,7 +118,7 @@ Case generate(vf::Src& src, const std::string& mode)
             op.kind = op.code == DECL ? src.irange(0, 2) : 0;
             op.name = op.code == MOVE ? 0 : src.irange(0, 1);
             op.group = op.code == DECL ? (src.irange(0, 1) ? 2 : 0) : 0;
-            op.arg = op.code == SHORT ? src.irange(0, 1) : (op.code == MOVE ? src.irange(0, 1) : 0);
+            op.arg = op.code == SHORT ? src.irange(0, 1) : (op.code == MOVE ? src.irange(0, 3) : 0);
         }
         else
         {
@@ -322,7 +323,18 @@ std::string check(const Case& c, vf::Ctx& ctx)
             break;
         case MOVE:
         {
-            auto fresh = std::make_unique<parser>(std::move(*p));
+            std::unique_ptr<parser> fresh;
+            if ((op.arg / 2) % 2)
+            {
+                // move ASSIGNMENT onto an existing parser that has declarations of its own
+                fresh = std::make_unique<parser>("other", "about");
+                fresh->option("zz-own", "d").optional();
+                fresh->group("A", "old A").toggle("zz-own-toggle", "d");
+                *fresh = std::move(*p);
+                ctx.tag("move:assignment");
+            }
+            else
+                fresh = std::make_unique<parser>(std::move(*p));
             if (op.arg % 2)
                 graveyard.push_back(std::move(p)); // old object stays alive
             p = std::move(fresh);                  // else: old object destroyed here
